@@ -101,7 +101,9 @@ def literal_texts(ctx):
 
 def gen(ctx):
     ctx.exhaustive_spaces.append("grouping grid: every infix operator nested in every other, on either side, with and without negation (13 x 13 x 5 forms)")
-    texts = qpool.all_texts() + EXTRA + literal_texts(ctx) + grouping_grid() + qpool.generated_texts(ctx.rng, 500 if ctx.tier == "quick" else 12000)
+    # slices written without brackets (a legacy spelling the default environment accepts), alone, in a row, after names and `..`
+    bare_slices = ["$1:2", "$1:2 3:4", "$ 1:3 0:2", "$:5 2:", "$..1:2 3:4", "$.a 1:2", "$1:2.a", "$[0]1:3", "$.xs 0:2 0:1", "$[?@ 1:2]", "$[?count(@ 0:2) > 1]", "$.xs -2: ::2", "$::-1 1:"]
+    texts = qpool.all_texts() + EXTRA + bare_slices + literal_texts(ctx) + grouping_grid() + qpool.generated_texts(ctx.rng, 500 if ctx.tier == "quick" else 12000)
     # fuzz: mutate accepted strings
     base = list(texts)
     import jsonpath
